@@ -841,3 +841,95 @@ func condBlockOf(v ssa.Value) *ssa.BasicBlock {
 	}
 	return nil
 }
+
+// ruleExtenderKeepsSets (C18-SOURCES, nil clause): a function of package server that is handed the external
+// declarations and returns external declarations (the step that adds what the document's include tree declares)
+// returns, in each of the two sets, something that stands for the set it was given: the value stored into
+// Accounts / Commodities of the returned struct is never the nil map on any path (through merges and through the
+// returns of the helpers it comes from).  A lazily made private copy that is still nil for the kind the tree added
+// nothing to, returned next to the extended other kind, silently drops every workspace declaration of that kind
+// (C18-m29).
+func ruleExtenderKeepsSets(c *Ctx) {
+	if c.ranOnce("ruleExtenderKeepsSets") {
+		return
+	}
+	spk := c.P.SSAPkg("internal/server")
+	isExt := func(t types.Type) bool { return typeHasSuffix(t, "analyzer.ExternalDeclarations") }
+	n := 0
+	for _, f := range c.P.ModuleFuncs() {
+		if f.Pkg != spk || f.Signature.Results().Len() != 1 || !isExt(f.Signature.Results().At(0).Type()) {
+			continue
+		}
+		takes := false
+		for _, p := range f.Params {
+			if isExt(p.Type()) {
+				takes = true
+			}
+		}
+		if !takes {
+			continue
+		}
+		for _, b := range f.Blocks {
+			for _, ins := range b.Instrs {
+				st, ok := ins.(*ssa.Store)
+				if !ok {
+					continue
+				}
+				fa, ok := st.Addr.(*ssa.FieldAddr)
+				if !ok {
+					continue
+				}
+				pt, ok := fa.X.Type().Underlying().(*types.Pointer)
+				if !ok || !isExt(pt.Elem()) {
+					continue
+				}
+				if _, isMap := st.Val.Type().Underlying().(*types.Map); !isMap {
+					continue
+				}
+				n++
+				nilLeaf := false
+				seen := map[ssa.Value]bool{}
+				var walk func(v ssa.Value, depth int)
+				walk = func(v ssa.Value, depth int) {
+					v = stripConv(v)
+					if v == nil || seen[v] || depth > 8 {
+						return
+					}
+					seen[v] = true
+					switch x := v.(type) {
+					case *ssa.Const:
+						if x.IsNil() {
+							nilLeaf = true
+						}
+					case *ssa.Phi:
+						for _, e := range x.Edges {
+							walk(e, depth+1)
+						}
+					case *ssa.Call:
+						if cal := x.Call.StaticCallee(); cal != nil && inModule(cal) && cal.Blocks != nil && cal.Signature.Results().Len() == 1 {
+							for _, b2 := range cal.Blocks {
+								if r, ok := lastInstr(b2).(*ssa.Return); ok && len(r.Results) == 1 {
+									rv := stripConv(r.Results[0])
+									// a parameter handed back: what the call site passes
+									if prm, ok := rv.(*ssa.Parameter); ok {
+										for i, q := range cal.Params {
+											if q == prm && i < len(x.Call.Args) {
+												walk(x.Call.Args[i], depth+1)
+											}
+										}
+										continue
+									}
+									walk(rv, depth+1)
+								}
+							}
+						}
+					}
+				}
+				walk(st.Val, 0)
+				c.check(!nilLeaf, "C18-SOURCES", funcName(f), "the returned "+fieldVarOfAddr(fa).Name()+" set stands for the set that was handed in", st.Pos(),
+					"no path stores the nil map", "on some path the "+fieldVarOfAddr(fa).Name()+" set of the returned declarations is the nil map (a private copy that was never made because the include tree added nothing of this kind): the declarations the workspace knows are dropped for this analysis - undeclared-name warnings of that kind vanish, or fire for names the workspace declares")
+			}
+		}
+	}
+	c.note("C18-SOURCES (nil clause): %d set fields of returned external declarations judged", n)
+}
